@@ -519,7 +519,4 @@ func (k *K) ReleaseAllParks() {
 	}
 }
 
-// placeholders for the stream transport (streams.go)
-type StreamPend struct{}
 
-type SimStream struct{}
